@@ -30,6 +30,7 @@ def proof_oracle(h, i, line, impl, orc):
 
 
 import math
+import re
 
 
 def c11_oracle(h, i, line, impl, orc):
@@ -441,7 +442,8 @@ def run_check(prop, tier, seed, n_override=None):
                 d1 = C.first_divergence(r, oracle)
                 return (d1 is not None and d1["kind"] == d0["kind"] and not match_known(prop, lines, d1)
                         and d1["line"].split()[0] == d0["line"].split()[0]
-                        and ((d1["impl"] or "").startswith("err") == (d0["impl"] or "").startswith("err")))
+                        and ((d1["impl"] or "").startswith("err") == (d0["impl"] or "").startswith("err"))
+                        and re.sub(r"[0-9a-fx#]+", "", d1.get("why") or "") == re.sub(r"[0-9a-fx#]+", "", d0.get("why") or ""))
             small = C.shrink(h["lines"], still, budget_s=45 if tier == "quick" else 120)
             r = C.run_one(small, work, mode=hmode, tag="final")
             d1 = C.first_divergence(r, oracle) or d
